@@ -165,6 +165,13 @@ def search(ctx, protos, depth, per):
                     found += 1
                     if len(w) <= 2:
                         continue
+                    # single removals can get stuck on a word that is not minimal (SolidTek16: A fails, AA passes, AAA fails):
+                    # a word with a failing sub-history of one or two operations is covered by the enumeration below
+                    subs = set()
+                    for n in (1, 2):
+                        subs.update(itertools.combinations(range(len(w)), n))
+                    if any(differs(*run_word([w[i] for i in idx], probe)) for idx in sorted(subs)):
+                        continue
                     ctx.report(name, 'full frame decoded differently after a history',
                                dict(word=''.join(word), held_same_key=(word[-1].upper() == probe_key), sig=canon_sig(w, probe_key)),
                                dict(protocol=name, keyA=aA, keyB=aB, word=list(word), minimal_word=w, garbage=garbage, probe=probe_key,
